@@ -34,7 +34,10 @@ SCENARIO = {
 RANGES = [None, None, None, None, 'bytes=0-9', 'bytes=100-', 'bytes=1000000-', 'bytes=10-5', 'lines=1-2', 'bytes=-100', 'bytes=0-0,5-6']
 BODIES = [None, ['application/x-www-form-urlencoded', 'a=1&b=two&_prof=&format=html'], ['application/x-www-form-urlencoded', 'p=posted&q=1'],
           ['multipart/form-data; boundary=BOUND', '--BOUND\r\nContent-Disposition: form-data; name="p"\r\n\r\nvalue\r\n--BOUND--\r\n'],
-          ['application/json', '{"a": [1, 2, 3]}'], ['text/plain', 'plain body ' * 50]]
+          ['application/json', '{"a": [1, 2, 3]}'], ['text/plain', 'plain body ' * 50],
+          # JSON documents that are not objects, and objects whose fields are not scalars
+          ['application/json', '[1, 2, 3]'], ['application/json', '"text"'], ['application/json', '42'], ['application/json', 'null'],
+          ['application/json', '{"p": null, "q": [1], "x": {"y": 1}}'], ['application/json', '{not json']]
 # Cookie headers a client may send whatever the application is (only the signed-cookie middleware looks at them): its cookie's
 # name with values that are not what it issued
 COOKIES = [None, None, None, 'clastic_cookie=abc?x=1', 'clastic_cookie=a?b', 'clastic_cookie=?', 'clastic_cookie="AAAA?a=b&c"',
@@ -272,7 +275,7 @@ def gen_case(rng, tier):
         reqs.append({'path': path, 'method': method, 'ae': rng.choice(ACCEPT_ENCODINGS), 'ua': rng.choice(AGENTS),
                      'query': rng.choice(['', 'q=1', 'x=y&q=z', '_prof_sort=tottime', '_prof=&_prof_sort=calls', '_prof_sort=']),
                      'cookie': rng.choice(COOKIES), 'range': rng.choice(RANGES)})
-        if path == '/rawbody' or (method == 'POST' and rng.random() < 0.5):
+        if path == '/rawbody' or (method == 'POST' and rng.random() < 0.5) or rng.random() < 0.2:
             reqs[-1]['body'] = rng.choice(BODIES[1:])
     if 'postdata' in mws:
         # PostDataMiddleware's very purpose is to parse the form out of the body: an endpoint reading the raw body is not its client
